@@ -2,7 +2,7 @@
 (symbolic length and content)."""
 from a816.parse.errors import ScannerException
 from a816.parse.scanner_states import lex_initial
-from vf.contracts.rt import assume, check
+from vf.contracts.rt import assume, check, ghost
 
 
 def scan_wf(s):
@@ -71,7 +71,7 @@ def sublexer_contract(s, fn, kind):
     n = len(s.input)
     assume(scan_wf(s))
     if kind == "after-first-digit":
-        assume(p0 >= 1)
+        assume(p0 >= 1 and s.input[p0 - 1] in "0123456789")
     first_is_identifier_char = p0 < n and s.input[p0] in "_ABCEDFGHIJKLMNOPQRSTUVWXYZabcedfghijklmnopqrstuvwxyz"
     try:
         fn(s)
@@ -83,3 +83,82 @@ def sublexer_contract(s, fn, kind):
     check("start_inside_input", 0 <= s.start and s.start <= n)
     if kind == "identifier" and first_is_identifier_char:
         check("identifier_strict_progress", s.pos > p0)
+
+
+# ------------------------------------------------------------------------------------------------ positions (C17)
+def lines_wf(s):
+    return 0 <= s.line_offset and s.line_offset <= s.start and s.start <= s.pos and s.pos <= len(s.input)
+
+
+def newline_consumable(candidates, negate):
+    return ("\n" in candidates) != negate
+
+
+def inv_accept_run_lines(self, candidates, negate, g):
+    """accept_run: the token start is untouched; the line bookkeeping only moves when the run can consume line ends."""
+    base = g["pos0"] <= self.pos and self.pos <= len(self.input) and self.start == g["start0"] and g["line_offset0"] <= self.line_offset
+    if newline_consumable(candidates, negate):
+        return base and (self.line_offset == g["line_offset0"] or self.line_offset <= self.pos)
+    return base and self.line_offset == g["line_offset0"] and self.current_line == g["current_line0"]
+
+
+def inv_comment_loop_lines(s, g):
+    """';' comment: until the guard reads the line end nothing moves; '/* */': line ends may be consumed, the start stays."""
+    return g["pos0"] <= s.pos and s.pos <= len(s.input) and s.start == g["start0"] and g["line_offset0"] <= s.line_offset \
+        and (s.line_offset == g["line_offset0"] or s.line_offset <= s.pos)
+
+
+def inv_quoted_lines(s, c, g):
+    """quoted string: a consumed line end is the character just read (the next iteration raises); otherwise nothing moved."""
+    return g["pos0"] <= s.pos and s.pos <= len(s.input) and s.start == g["start0"] and (s.line_offset == g["line_offset0"] or c == "\n") \
+        and g["line_offset0"] <= s.line_offset and (s.current_line == g["current_line0"] or c == "\n")
+
+
+def inv_expression_lines(s, g):
+    """lex_expression: blanks, numbers, identifiers, operators, parentheses: never a line end."""
+    return g["pos0"] <= s.pos and s.pos <= len(s.input) and g["start0"] <= s.start and s.start <= s.pos and s.line_offset == g["line_offset0"] \
+        and s.current_line == g["current_line0"]
+
+
+def positions_contract(s, fn, kind):
+    """A lexer function run from a well-formed scanner (token start on the current line): every Position it creates -- for the
+    tokens it emits (COMMENT excepted) and for every ScannerException it raises -- is taken while the token start is still
+    on the current line (the obligations are the call-site preconditions of get_position / get_token); a sub-lexer consumes
+    no line end and leaves the start between its old value and the position."""
+    assume(lines_wf(s))
+    lo0 = s.line_offset
+    cl0 = s.current_line
+    st0 = s.start
+    ghost("fn_line_offset", lo0)
+    ghost("fn_current_line", cl0)
+    if kind == "after-first-digit":
+        assume(s.start < s.pos and s.input[s.pos - 1] in "0123456789")
+    if kind == "state":
+        assume(s.pos < len(s.input))
+    try:
+        fn(s)
+    except ScannerException:
+        return
+    check("returns_well_formed", lines_wf(s))
+    if kind != "state":
+        check("no_line_end_consumed", s.line_offset == lo0 and s.current_line == cl0)
+        check("start_moves_forward", st0 <= s.start)
+
+
+def next_line_bookkeeping_contract(s):
+    """Scanner.next: consuming a line end closes the line: the line count grows by exactly one and the next line starts right
+    after it; any other character leaves the line bookkeeping alone; the closed line's text is recorded."""
+    assume(lines_wf(s))
+    n = len(s.input)
+    p0 = s.pos
+    lo0 = s.line_offset
+    cl0 = s.current_line
+    nlines = len(s.file.lines)
+    c = s.next()
+    if p0 >= n:
+        check("end_of_input", c is None and s.pos == p0 and s.line_offset == lo0 and s.current_line == cl0)
+    elif c == "\n":
+        check("line_closed", s.pos == p0 + 1 and s.line_offset == p0 + 1 and s.current_line == cl0 + 1)
+        check("line_text_recorded", len(s.file.lines) == nlines + 1 and s.file.lines[nlines] == s.input[lo0:p0])
+    else:
+        check("same_line", s.pos == p0 + 1 and s.line_offset == lo0 and s.current_line == cl0 and len(s.file.lines) == nlines)
